@@ -675,6 +675,32 @@ def lemma_SeenRank_step():
     )
 
 
+def lemma_step(name):
+    """generic: the one-step unfolding P(.., n) = P(.., n-1) and/or body(n-1) of a bound-indexed predicate follows from
+    its elimination / introduction axioms"""
+    from contracts import c_preocf  # noqa: F401  (registers the predicates)
+    from pyvc import iterm as IT
+
+    P, W, xs, body, trig, conj = IT.STEP_PREDS[name]
+    cs = [z3.Const(f"{name}_c{j}", x.sort()) for j, x in enumerate(xs)]
+    n = cs[-1]
+    prevargs = cs[:-1] + [n - 1]
+    last = body(cs, n - 1)
+    if conj:
+        obl = [
+            ("=> prev", [n >= 1, P(*cs)], P(*prevargs), [trig(cs, W(*prevargs))]),
+            ("=> last", [n >= 1, P(*cs)], last, [trig(cs, n - 1)]),
+            ("<=", [n >= 1, P(*prevargs), last], P(*cs), [trig(cs, W(*cs))]),
+        ]
+    else:
+        obl = [
+            ("=>", [n >= 1, P(*cs)], z3.Or(P(*prevargs), last), [trig(cs, W(*cs))]),
+            ("<= prev", [n >= 1, P(*prevargs)], P(*cs), [trig(cs, W(*prevargs))]),
+            ("<= last", [n >= 1, last], P(*cs), [trig(cs, n - 1)]),
+        ]
+    return _prove(name + ".step", obl, exclude=[name + ".step"])
+
+
 def lemma_mem_at():
     mem, memw = L.mem_theory(L.Int)
     l = z3.Const("l_mat", LInt.sort)
@@ -692,6 +718,9 @@ LEMMAS = {
     "CoveredUpTo.snoc": lemma_CoveredUpTo_snoc,
     "KeySoftN.mono": lemma_KeySoftN_mono,
     "SeenRank.step": lemma_SeenRank_step,
+    "MargAtt.step": lambda: lemma_step("MargAtt"),
+    "MargLB.step": lambda: lemma_step("MargLB"),
+    "MargAny.step": lambda: lemma_step("MargAny"),
     "CnfHolds.snoc": lemma_CnfHolds_snoc,
     "MCS.bridge": lemma_MCS_bridge,
     "MCS.bridge2": lemma_MCS_bridge2,
